@@ -8,7 +8,8 @@ Oracle per case:
  1. the tool exits 0 every time;
  2. all R outputs are byte-identical; one further run over an output path that already holds a longer file (the first output
     plus a tail) gives the same bytes again (the result is a function of input and configuration only);
- 3. `gcc -std=c99 -fsyntax-only` / `g++ -std=c++11 -fsyntax-only` accept (each distinct) output on its own;
+ 3. `gcc -std=c99 -fsyntax-only` / `g++ -std=c++11 -fsyntax-only` accept (each distinct) output on its own; in C, sizeof of every
+    exported object / group type in the processed header equals the size the Rust side gives it;
  4. every planted foreign declaration (struct / typedef / function text exactly as the synthesiser emitted it) occurs verbatim in
     the output, in the original relative order;
  5. the stub `cbindgen` received exactly the arguments after `--` minus `-o/--output <path>`; nothing from before `--` was
@@ -119,6 +120,35 @@ def run_case(case, exe, stubdir, workroot, R, keep=False):
                 if cause not in causes:
                     causes.add(cause)
                     V.append(("not_self_contained:%s:%s" % (lang, cause), "\n".join(l for _, _, l in errors[:4]) or diag[:400]))
+        # 3b. (C) the processed header keeps the layout of every object / group type: sizeof as the C compiler sees it in the
+        #     processed header == the size the Rust side gives the type (zero-sized members take no space)
+        if lang == "c" and not causes and len(outputs) == 1:
+            lib = r["lib"]
+            want = {}
+            for f in lib.functions:
+                if f.get("foreign"):
+                    continue
+                sa = lib.size_align(f["ret"])
+                if sa is not None and f["ret"][0] == "path":
+                    want[lib.decl(f["ret"], "")] = sa[0]
+            if want:
+                tu = os.path.join(wd, "sizes.c")
+                with open(tu, "w") as f:
+                    f.write('#include <stdio.h>\n#include "out0.h"\nint main(void) {\n' +
+                            "".join('    printf("SIZE %%zu %s\\n", sizeof(%s));\n' % (d, d) for d in sorted(want)) + "    return 0;\n}\n")
+                import subprocess
+                exe_s = os.path.join(wd, "sizes")
+                p = subprocess.run(["gcc", "-std=c99", "-w", "-o", exe_s, tu], cwd=wd, stdout=subprocess.PIPE, stderr=subprocess.STDOUT, text=True)
+                if p.returncode == 0:
+                    q = subprocess.run([exe_s], stdout=subprocess.PIPE, text=True)
+                    for ln in q.stdout.splitlines():
+                        _, n, d = ln.split(" ", 2)
+                        if int(n) != want[d]:
+                            V.append(("layout_changed:c:%s" % ("smaller" if int(n) < want[d] else "larger"),
+                                      "sizeof(%s) is %s in the processed header, the Rust side lays the type out in %d bytes (a member that occupies space was removed / added)" % (d, n, want[d])))
+                            break
+                else:
+                    V.append(("not_self_contained:c:sizeof_unusable", p.stdout[:400]))
         # 4. foreign declarations
         lost = []
         for text in sorted(outputs):
